@@ -266,6 +266,9 @@ def alt_case(rng):
     if inherit:
         # XSD 1.1 inheritable attribute on the parent: visible to the tests unless the element has its own attribute k
         combos += [(dk, kv, None, None) for dk in ('a', 'b', 'c') for kv in (None, 'a', 'b', 'z')]
+        # an earlier test that holds through the inherited attribute, a later one through an own attribute
+        combos += [(dk, None, d, None) for dk in ('a', 'b') for d in ('2021-01-01', '2019-01-01', 'junk')]
+        combos += [(dk, None, None, n) for dk in ('a', 'c') for n in ('2', '0', '5')]
     combos += [(None, kv, d, None) for kv in (None, 'a') for d in ('2021-01-01', '2019-01-01', '99999999999999999999-01-01', 'junk', '2020-02-30')]
     combos += [(None, kv, None, n) for kv in (None, 'b') for n in ('2', '0', '5', 'x', '')]
 
@@ -291,6 +294,20 @@ def alt_case(rng):
             insts.append({'kind': 'alt', 'alts': [(f, idx[ty]) for f, (_t, ty) in zip(flags, alts)],
                           'want': idx[chosen], 'want_valid': want,
                           'xml': '<doc%s><e%s>%s</e></doc>' % (' k="%s"' % dock if dock else '', attrs, content)})
+    if inherit:
+        # the inheritable attribute on an intermediate element: it is inherited by that element's descendants only, not
+        # by the elements that follow it
+        idx = {None: 0, 'xs:integer': 1, 'xs:boolean': 2, 'xs:date': 3}
+        for k1 in ('a', 'b', 'c'):
+            chosen1 = next((ty for (t, ty) in alts if t == "@k='%s'" % k1), None)
+            first = next((t for (t, ty) in alts if holds(t, k1, None, None) is True), None)
+            if chosen1 is None or first != "@k='%s'" % k1:
+                continue
+            other = next(ty for ty in types if ty != chosen1)
+            for second in ('<sec><e>%s</e></sec>' % good[other], '<e>%s</e>' % good[other]):
+                flags = [holds(t, None, None, None) for t, _ty in alts]
+                insts.append({'kind': 'alt', 'alts': [(f, idx[ty]) for f, (_t, ty) in zip(flags, alts)], 'want': 0, 'want_valid': True,
+                              'xml': '<doc><sec k="%s"><e>%s</e></sec>%s</doc>' % (k1, good[chosen1], second)})
     return {'hier': h, 'elems': [el], 'docref': 'e', 'version': '1.1', 'instances': insts, 'alt_schema': True, 'inherit': inherit}
 
 
@@ -303,8 +320,10 @@ def schema_xsd_alt(case):
                     % (n, n) for n in ('integer', 'boolean', 'date'))
     return ('<xs:schema xmlns:xs="http://www.w3.org/2001/XMLSchema">'
             '%s<xs:element name="e" type="xs:anyType">%s</xs:element>'
-            '<xs:element name="doc"><xs:complexType><xs:sequence><xs:element ref="e" maxOccurs="unbounded"/>'
-            '</xs:sequence>%s</xs:complexType></xs:element></xs:schema>'
+            '<xs:element name="sec"><xs:complexType><xs:sequence><xs:element ref="e" minOccurs="0" maxOccurs="unbounded"/></xs:sequence>'
+            '<xs:attribute name="k" type="xs:string" inheritable="true"/></xs:complexType></xs:element>'
+            '<xs:element name="doc"><xs:complexType><xs:choice maxOccurs="unbounded"><xs:element ref="e"/><xs:element ref="sec"/>'
+            '</xs:choice>%s</xs:complexType></xs:element></xs:schema>'
             % (deriv, alts, '<xs:attribute name="k" type="xs:string" inheritable="true"/>' if case.get('inherit') else ''))
 
 
